@@ -1691,6 +1691,10 @@ func (*Context).Parse
   ensures old(ctx.IsRunning) ==> result != nil
   // every parse — of a top-level VM or of a sub-VM that compiles a body on demand — selects the context's own message
   // language before the parser can report anything (C19: the configured language only)
+  // a sub-VM that compiles a body on demand keeps the operation count handed down by its caller; only a top-level parse
+  // starts a fresh budget (C07: recursion through restored functions stays within the budget)
+  ghost at entry: ghostProtectFields(ctx, "NumOpCount", "subThreadDepth")
+  ghost at precall 1 p.parse: ghostAssert(ctx.subThreadDepth != 0 ==> ctx.NumOpCount == old(ctx.NumOpCount)); ghostAssert(ctx.subThreadDepth == 0 ==> ctx.NumOpCount == 0)
   ghost var langSet int = 0
   ghost at precall 1 SetParseErrorLanguage: langSet = langSet + 1; ghostAssert(arg0 == ctx.Config.ParseErrorLanguage)
   ensures [C19] !old(ctx.IsRunning) ==> langSet == 1
